@@ -140,7 +140,7 @@ pub fn check_rank_pair(c: &(u8, u8, u8)) -> CheckResult {
 }
 
 pub fn run(ctx: &mut Ctx) {
-    ctx.rule = "complete enumeration of the 52 x 51 ordered pairs of distinct cards; each case checks equality, two hashers, canonical element order, text round trip, both text orders, and single-entry ranges; all cases non-trivial and distinct by construction. Consequence clause ('a range keyed by pairs can never hold the same combo twice'): every pair the library builds itself - expansion of all 3,796 well-formed tokens, of all 13+156+156 RankPair values in either rank order, ranges parsed from a token followed by its mirrored spelling, the leftover view - must be in the canonical form of CardPair::new, and such a range must hold each combo once".into();
+    ctx.rule = "complete enumeration of the 52 x 51 ordered pairs of distinct cards; each case checks equality, two hashers, canonical element order, text round trip, both text orders, and single-entry ranges; all cases non-trivial and distinct by construction. Consequence clause ('a range keyed by pairs can never hold the same combo twice'): every pair the library builds itself - expansion of all 3,796 well-formed tokens, of all 13+156+156 RankPair values in either rank order, ranges parsed from a token followed by its mirrored spelling, the leftover view, proptest lists of 1-430 explicit card-pair tokens with the two cards in random order and some combos repeated in the other spelling - must be in the canonical form of CardPair::new, and such a range must hold each combo once".into();
     ctx.assumptions = vec!["'orders first' is the (rank ace..deuce, suit s,h,d,c) order of C13".into()];
     ctx.exhaustive = env_scale() >= 1.0;
     let n = 52 * 51u64;
@@ -162,7 +162,79 @@ pub fn run(ctx: &mut Ctx) {
     run_library_built_pairs(ctx);
 }
 
+/// long lists made only of explicit card-pair tokens, cards of each token in random order, some
+/// combos repeated in the other spelling: every stored key must be canonical, each combo stored once
+#[derive(Clone, Debug, serde::Serialize, serde::Deserialize)]
+pub struct ExplicitList {
+    /// (card a, card b, weight literal index) in the order written
+    pub toks: Vec<(u8, u8, u8)>,
+}
+pub fn explicit_text(c: &ExplicitList) -> String {
+    const W: [&str; 4] = ["", ":0.5", ":0.25", ":1"];
+    c.toks.iter().map(|(a, b, w)| format!("{}{}{}", cname(*a), cname(*b), W[*w as usize % 4])).collect::<Vec<_>>().join(",")
+}
+pub fn check_explicit_list(c: &ExplicitList) -> CheckResult {
+    vensure!(c.toks.iter().all(|(a, b, _)| a != b && *a < 52 && *b < 52), "bad-case", "not card pairs");
+    let text = explicit_text(c);
+    let Ok(r) = text.parse::<HandRange>() else {
+        return Ok(Outcome::default());
+    };
+    for (p, _) in &r {
+        canonical(p, &format!("parsing a list of {} explicit card-pair tokens", c.toks.len()))?;
+    }
+    let distinct: std::collections::BTreeSet<(u8, u8)> = c.toks.iter().map(|(a, b, _)| norm_pair(*a, *b)).collect();
+    vensure!(r.card_pairs().len() == distinct.len(), "range-holds-combo-twice", "a list of {} explicit tokens naming {} distinct combos parses to {} entries", c.toks.len(), distinct.len(), r.card_pairs().len());
+    // the text of the parsed range parses back to an equal range (keys included)
+    if let Ok(back) = r.to_string().parse::<HandRange>() {
+        vensure!(back == r, "range-text-roundtrip", "the parsed range and the parse of its own text compare unequal");
+    }
+    let reversed = c.toks.iter().filter(|(a, b, _)| a > b).count();
+    let repeated = c.toks.len() - distinct.len();
+    let mut cls = 0u64;
+    if c.toks.len() > 169 {
+        cls |= 64;
+    }
+    if repeated > 0 {
+        cls |= 128;
+    }
+    Ok(Outcome::new(reversed > 0, hash_str(&text), cls))
+}
+const EXPLICIT_CLASSES: &[&str] = &["", "", "", "", "", "", "more_than_169_tokens", "combo_repeated_in_other_spelling"];
+
+pub fn explicit_strategy() -> impl proptest::strategy::Strategy<Value = ExplicitList> {
+    use proptest::prelude::*;
+    (proptest::sample::subsequence(all_combos(), 1..=420), any::<u64>(), 0usize..12).prop_map(|(cs, seed, reps)| {
+        let mut x = crate::runner::mix64(seed);
+        let mut toks: Vec<(u8, u8, u8)> = cs
+            .iter()
+            .map(|p| {
+                x = crate::runner::mix64(x);
+                let w = ((x >> 8) % 4) as u8;
+                if x & 1 == 1 {
+                    (p.1, p.0, w)
+                } else {
+                    (p.0, p.1, w)
+                }
+            })
+            .collect();
+        for _ in 0..reps {
+            x = crate::runner::mix64(x);
+            let t = toks[(x % toks.len() as u64) as usize];
+            toks.push((t.1, t.0, ((x >> 9) % 4) as u8));
+        }
+        // shuffle
+        for i in (1..toks.len()).rev() {
+            x = crate::runner::mix64(x);
+            toks.swap(i, (x % (i as u64 + 1)) as usize);
+        }
+        ExplicitList { toks }
+    })
+}
+
 pub fn run_library_built_pairs(ctx: &mut Ctx) {
+    let cases = ctx.tier.pick(600, 12_000);
+    ctx.run_random_brief(StreamCfg::new("long_explicit_lists", EXPLICIT_CLASSES, cases).shrink(200), explicit_strategy, check_explicit_list, |c| serde_json::json!(format!("{} tokens: {}...", c.toks.len(), explicit_text(c).chars().take(60).collect::<String>())));
+    ctx.require_class("long_explicit_lists", "more_than_169_tokens", cases / 3);
     let toks = crate::notation::all_tokens();
     let n = toks.len() as u64;
     ctx.run_enum_brief(StreamCfg::new("pairs_from_tokens", TOKEN_CLASSES, n), n, true, |i| toks[i as usize].clone(), check_token_pairs, |t| serde_json::json!(t.text()));
@@ -184,6 +256,7 @@ pub fn replay(stream: &str, path: &str, case: &Value) -> i32 {
     match stream {
         "pairs_from_tokens" => replay_case::<crate::notation::Tok>("C14", path, case, check_token_pairs),
         "pairs_from_rank_pairs" => replay_case::<(u8, u8, u8)>("C14", path, case, check_rank_pair),
+        "long_explicit_lists" => replay_case::<ExplicitList>("C14", path, case, check_explicit_list),
         _ => replay_case::<Case>("C14", path, case, check),
     }
 }
